@@ -34,7 +34,10 @@ public:
     Keyring();
     CScript Spk(SK kind, int key) const;
     SpendInfo Classify(const CScript& spk) const;
-    bool CanSpend(const CScript& spk) const { return Classify(spk).kind != SK::UNKNOWN; }
+    bool CanSpend(const CScript& spk) const { SK k = Classify(spk).kind; return k != SK::UNKNOWN && k != SK::OPRETURN; }
+    /** An anyone-can-spend bare script of exactly `size` bytes (pushes + OP_DROPs, then OP_1+key); sizes 9999 and 10000 are
+     *  registered as spendable (kind TRUE_BARE), 10001 is unspendable by the script-size rule. */
+    CScript BigTrue(size_t size, int key) const;
 };
 const Keyring& Keys();
 
